@@ -18,7 +18,7 @@ from props import _dfpart_util as U
 PROP = "C44"
 READY = True
 DRIVER = "dm_dfpart"
-LEAN_MODULES = ["DaskModel.Props.C44"]
+LEAN_MODULES = ["DaskModel.Props.C44", "DaskModel.Props.C44xUnsorted"]
 LEVEL_TEXT = ("Lean 4 theorems over a transliteration of dask_expr/_repartition.py, for every list of partitions. "
               "RepartitionDivisions: divisions_rows_order_truthful (the FULL statement: for every frame truthful for legal old "
               "divisions with partitions in index order and every legal new division vector the guards accept - force or not, "
@@ -38,7 +38,7 @@ LEVEL_TEXT = ("Lean 4 theorems over a transliteration of dask_expr/_repartition.
               "tomore_npartitions; lower_npartitions (exactly n "
               "partitions in every branch of Repartition._lower); RepartitionSize: repartition_size_rows (any split counts from "
               "1 + mem//size and any chunk lengths iter_chunks yields: rows, order, one partition per chunk), iter_chunks_lengths, "
-              "sizeNsplits_pos; from_pandas_rows; divisions_npartitions. VALIDATED only: that the fixed-point double model IS CPython / "
+              "sizeNsplits_pos; from_pandas_rows; divisions_npartitions. Extension (Props/C44xUnsorted, model FPU = the empty-frame and sort=False/non-monotonic branches of FromPandas._divisions_and_locations, tied to the real _locations() and partitions): unsorted_rows (same rows, same order), unsorted_npartitions (count = ceil(n/chunksize); npartitions-or-1 for an empty frame), unsorted_npartitions_le (npartitions=p yields at most p partitions), unsorted_locations_chunksize. VALIDATED only: that the fixed-point double model IS CPython / "
               "NumPy arithmetic (diffed exhaustively for old,new <= 120 and len < 70 x k < 40 on every run, incl. quotients below 1), "
               "pandas memory_usage (an input), boundary_slice = key-range filter.")
 LEVEL_NOTE = ("Trusted: Lean kernel + standard axioms; the exact double model (round-to-nearest-even division and "
@@ -449,7 +449,44 @@ def case_from_pandas(ctx, inp):
             ctx.note("from_pandas-unsorted-npartitions-not-met")
 
 
-CASES = {"tofewer_bounds": case_tofewer_bounds, "split_evenly": case_split_evenly, "nsplits": case_nsplits,
+def case_from_pandas_unsorted(ctx, inp):
+    """Extension round: the branches of FromPandas._divisions_and_locations WITHOUT sorted_division_locations (empty frame;
+    sort=False on a non-monotonic index): the REAL `_locations()` and the real partitions vs the Lean model
+    (`FPU.locations`, `FPU.fromPandasUnsorted`; Props/C44xUnsorted: unsorted_rows, unsorted_npartitions, unsorted_npartitions_le)"""
+    import pandas as pd
+    import dask
+    idx, kw = inp["index"], inp["kw"]
+    n = len(idx)
+    df = pd.DataFrame({"v": list(range(n))}, index=pd.Index(idx, dtype="int64"))
+    npart, cs = kw.get("npartitions"), kw.get("chunksize")
+    a_np = npart if npart is not None else Sym("none")
+    a_cs = cs if cs is not None else Sym("none")
+    with dask.config.set(scheduler="sync"):
+        d = U.dd().from_pandas(df, sort=False, **kw)
+        locs = [int(x) for x in d.expr._locations()]
+        parts = U.partitions(d)
+        divs = list(d.divisions)
+    rows = [[int(v) for v in p.v] for p in parts]
+    ctx.eq("from_pandas(sort=False) locations", ctx.lean(Sym("fpu-locations"), n, a_np, a_cs), [Sym("ok"), locs])
+    ctx.eq("from_pandas(sort=False) partitions", ctx.lean(Sym("fpu-parts"), list(range(n)), a_np, a_cs), [Sym("ok"), rows])
+    if [v for r in rows for v in r] != list(range(n)):
+        ctx.fail("from_pandas(sort=False) does not keep the rows in order", observed=rows)
+    if d.npartitions != len(parts) or len(divs) != len(parts) + 1 or any(x is not None for x in divs):
+        ctx.fail("from_pandas(sort=False): npartitions / divisions disagree with the graph", observed=[d.npartitions, len(parts), divs])
+    if n == 0:
+        if len(parts) != (npart or 1):
+            ctx.fail("from_pandas of an empty frame: partition count is not `npartitions or 1`", observed=len(parts))
+        ctx.branch("fpu-empty")
+    else:
+        c = cs if npart is None else -(-n // npart)
+        if len(parts) != -(-n // c) or any(len(r) != c for r in rows[:-1]) or not 0 < len(rows[-1]) <= c:
+            ctx.fail("from_pandas(sort=False): partition lengths are not chunksize / count is not ceil(n/chunksize)", observed=[len(r) for r in rows])
+        if npart is not None and len(parts) > npart:
+            ctx.fail("from_pandas(sort=False, npartitions=p) yields more than p partitions", observed=[len(parts), npart])
+        ctx.branch("fpu-" + ("npartitions-" + ("met" if len(parts) == npart else "fewer") if npart is not None else "chunksize"))
+
+
+CASES = {"from_pandas_unsorted": case_from_pandas_unsorted, "tofewer_bounds": case_tofewer_bounds, "split_evenly": case_split_evenly, "nsplits": case_nsplits,
          "div_layer": case_div_layer, "boundary_slice": case_boundary_slice, "repartition": case_repartition,
          "from_pandas": case_from_pandas, "iter_chunks": case_iter_chunks, "repart_size": case_repart_size,
          "joint": case_joint}
@@ -605,3 +642,14 @@ def generate(ctx):
         if rng.random() < 0.4:
             kw["sort"] = False
         yield "from_pandas", {"index": idx, "kw": kw}
+    # extension round (appended last: keeps the rng streams of the sections above): unsorted / empty from_pandas
+    for _ in range(ctx.n(60, 800)):
+        ln = rng.choice([0, 0, 1, 2, 3]) if rng.random() < 0.15 else rng.randint(2, 30)
+        idx = [rng.randint(0, 40) for _ in range(ln)]
+        if ln >= 2 and sorted(idx) == idx:
+            idx[0], idx[-1] = idx[-1] + 1, idx[0]      # force the non-monotonic branch
+        if ln >= 2 and sorted(idx) == idx:
+            idx[0] = idx[1] + 1
+        kw = {rng.choice(["npartitions", "chunksize"]): rng.randint(1, ln + 2)}
+        if ln == 0 or sorted(idx) != idx:
+            yield "from_pandas_unsorted", {"index": idx, "kw": kw}
